@@ -230,6 +230,34 @@ theorem eval_ff (I : Interp) : eval I Term.ff = .b false := by
 theorem truth_of_eval {I : Interp} {t : Term} {b : Bool} (h : eval I t = .b b) : truth I t = b := by
   simp [truth, h, Val.isTrue]; cases b <;> rfl
 
+theorem truth_and (I : Interp) (args : List Term) (p : Payload) :
+    truth I (.node .and args p) = args.all (truth I) := truth_of_eval (eval_and' I args p)
+theorem truth_or (I : Interp) (args : List Term) (p : Payload) :
+    truth I (.node .or args p) = args.any (truth I) := truth_of_eval (eval_or' I args p)
+theorem truth_not (I : Interp) (a : Term) (p : Payload) :
+    truth I (.node .not [a] p) = !truth I a := truth_of_eval (eval_not I a p)
+theorem truth_implies (I : Interp) (a b : Term) (p : Payload) :
+    truth I (.node .implies [a, b] p) = (!truth I a || truth I b) := truth_of_eval (eval_implies I a b p)
+theorem truth_iff (I : Interp) (a b : Term) (p : Payload) :
+    truth I (.node .iff [a, b] p) = (truth I a == truth I b) := truth_of_eval (eval_iff I a b p)
+theorem truth_ite (I : Interp) (c a b : Term) (p : Payload) :
+    truth I (.node .ite [c, a, b] p) = if truth I c then truth I a else truth I b := by
+  simp only [truth, eval_ite]
+  by_cases h : (eval I c).isTrue = true <;> simp [h]
+theorem truth_forall (I : Interp) (vs : List Sym) (b : Term) :
+    truth I (.node .forall_ [b] (.qvars vs)) = I.quant true vs (fun J => truth J b) :=
+  truth_of_eval (eval_forall' I vs b)
+theorem truth_exists (I : Interp) (vs : List Sym) (b : Term) :
+    truth I (.node .exists_ [b] (.qvars vs)) = I.quant false vs (fun J => truth J b) :=
+  truth_of_eval (eval_exists' I vs b)
+
+theorem wb_pair {x y : Term} (hx : WB x) (hy : WB y) : ∀ z ∈ [x, y], WB z := by
+  intro z hz
+  simp only [List.mem_cons, List.not_mem_nil, or_false] at hz
+  rcases hz with rfl | rfl
+  · exact hx
+  · exact hy
+
 /-! ## the smart constructors -/
 
 theorem wb_mkAnd {as : List Term} (h : ∀ a ∈ as, WB a) : WB (mkAnd as) := by
